@@ -492,6 +492,30 @@ def run(program, res, tier):
                             f"goes unreported", e.stmt)
     if n_loops == 0:
         raise AnalysisError("_check_data_frame_matches_schema: cell scan loop not found")
+    # S4c: what the scan iterates over covers every column of that name: d[name] of a Pandas frame with repeated column names is a frame, and the
+    # helper that flattens it has to walk all of its columns (range(col.shape[1]) / a loop over them), never one fixed position
+    ds_mod = program.module("data_schema")
+    cc = ds_mod.functions.get("_column_cells")
+    if cc is not None:
+        res.analysed(cc)
+        fixed = [sub for sub in ast.walk(cc.node) if isinstance(sub, ast.Subscript) and isinstance(sub.value, ast.Attribute) and sub.value.attr == "iloc"
+                 and isinstance(sub.slice, ast.Tuple) and len(sub.slice.elts) == 2 and isinstance(sub.slice.elts[1], ast.Constant)]
+        walks_all = [c for c in ast.walk(cc.node) if isinstance(c, (ast.ListComp, ast.GeneratorExp, ast.For))
+                     and any("shape[1]" in unparse(x) or ".columns" in unparse(x) or ".items()" in unparse(x) for x in ast.walk(c))]
+        if fixed:
+            res.fail_at("C22-S4", cc, "same-named-columns-first-only",
+                        f"_column_cells hands the scan `{unparse(fixed[0])}`: of several columns with the declared name only the one at a fixed position is examined, so a "
+                        f"non-null value of an undeclared type in another column of that name raises nothing", fixed[0])
+        elif walks_all:
+            res.ok("C22-S4", "_column_cells walks every column of the declared name (repeated column names of a Pandas frame)")
+        else:
+            res.fail_at("C22-S4", cc, "same-named-columns-not-walked",
+                        "_column_cells no longer walks the columns of a frame-valued d[name]: with repeated column names the scan iterates over column labels, not cells")
+    else:
+        scans = [n for n in ast.walk(cm.node) if isinstance(n, ast.For) and any(isinstance(c, ast.Call) and isinstance(c.func, ast.Attribute) and c.func.attr == "_check_spec" for c in ast.walk(n))]
+        its = [unparse(x.iter) for x in scans]
+        if any("iloc[:, 0]" in t for t in its):
+            res.fail_at("C22-S4", cm, "same-named-columns-first-only", f"the cell scan iterates over `{its}`: one of several same-named columns")
     # ---- S5 missing column / missing argument reported
     txt = unparse(cm.node)
     miss_col = [n for n in ast.walk(cm.node) if isinstance(n, ast.If) and "not in" in unparse(n.test) and "col" in unparse(n.test)
